@@ -728,9 +728,9 @@ func prepare(a *adapter, seed int64, res *vh.Result) *protoState {
 
 // quotas: number of mutated runs per protocol and tier.
 var quota = map[string]map[string]int{
-	"quick": {"session": 90, "gennaro": 100, "hjky": 60, "redistribute": 110, "redistribute-recover": 30, "lindell22": 120, "boldyreva": 36, "boldyreva-3": 6, "dkls23": 6,
+	"quick": {"session": 90, "gennaro": 80, "hjky": 60, "redistribute": 90, "redistribute-recover": 30, "lindell22": 100, "boldyreva": 36, "boldyreva-3": 6, "dkls23": 4,
 		"canetti": 40, "dkls23-softspoken": 3, "lindell17": 4, "cggmp21": 1},
-	"thorough": {"session": 3000, "gennaro": 1500, "hjky": 800, "redistribute": 1500, "redistribute-recover": 600, "lindell22": 1500, "boldyreva": 200, "boldyreva-3": 100, "dkls23": 90,
+	"thorough": {"session": 3000, "gennaro": 1500, "hjky": 800, "redistribute": 1500, "redistribute-recover": 600, "lindell22": 1500, "boldyreva": 200, "boldyreva-3": 100, "dkls23": 45,
 		"canetti": 1000, "dkls23-softspoken": 40, "lindell17": 60, "cggmp21": 40},
 }
 
